@@ -154,3 +154,58 @@ def unbound(runner, vals):
         if kd != want:
             return False, f"`{src}` under {runner}: expected {want}, got {kd} {r!r:.100}"
     return True, "ok"
+
+
+def tolerant(*args):
+    from celpy import celtypes as ct
+    return ct.IntType(7)
+
+
+def reachable(case, runner, vals):
+    """host callables importable from `operator` (reachable by generated code too)"""
+    import operator
+    from celpy import celtypes as ct
+    a, b, c = vals["a"], vals["b"], vals["c"]
+    E = "error"
+    div_err = b == 0
+    table = {
+        "dict-sub": ({"f": operator.sub}, [("f(a, b)", a - b), ("a.f(b)", a - b), ("f(f(a, b), c)", a - b - c), ("a.f(b).f(c)", a - b - c), ("f(a, f(b, c))", a - (b - c)),
+                                          ("[a, b].map(x, x.f(c))[1]", b - c), ("f(a, b) > 0 || f(b, a) >= 0", True)]),
+        "list-sub": ([operator.sub], [("sub(a, b)", a - b), ("a.sub(b)", a - b), ("sub(a, b).sub(c)", a - b - c)]),
+        "shadow-size": ({"size": operator.neg, "startsWith": operator.sub}, [("size(a)", -a), ("a.size()", -a), ("a.startsWith(b)", a - b), ("startsWith(a, b)", a - b),
+                                                                           ("size(a) + a.size()", -2 * a)]),
+        "leak-list": ([operator.sub, operator.neg], [("sub(a, b)", a - b), ("neg(a)", -a)]),
+        "leak-dict": ({"sub": operator.sub, "neg": operator.neg}, [("sub(a, b)", a - b), ("neg(a)", -a)]),
+        "tolerant-builtin-error": ({"g": operator.is_}, [("g(a / b, c)", E if div_err else False), ("(a / b).g(c)", E if div_err else False), ("g(c, a % b)", E if div_err else False)]),
+        "tolerant-host-error": ({"g": tolerant, "f": host_err, "h": host_raise_value}, [("g(f(a), 2)", E), ("f(a).g(2)", E), ("g(2, h(a))", E), ("g(f(a), 2) > 0 || true", True), ("g(a, 2)", 7)]),
+        "builtin-error-argument": ({"g": operator.is_}, [("string(a / b) == string(a / b)", E if div_err else True), ("size([a / b])", E if div_err else 1)]),
+    }
+    fns, progs = table[case]
+    bind = {"a": ct.IntType(a), "b": ct.IntType(b), "c": ct.IntType(c)}
+    for src, want in progs:
+        where = f"`{src}` with functions {sorted(fns) if isinstance(fns, dict) else [f.__name__ for f in fns]} from `operator` under {runner} (a={a}, b={b}, c={c})"
+        try:
+            prog = make_program(src, runner, functions=fns)
+        except Exception as ex:  # noqa: BLE001
+            return False, f"{where}: program construction raised {type(ex).__name__}: {ex}"
+        kd, r = evaluate_outcome(lambda: prog.evaluate(dict(bind)))
+        if want == E:
+            if kd != "error":
+                return False, f"{where}: an erroring argument must make the call an evaluation error, got {kd} {r!r:.80}"
+            continue
+        if kd != "value":
+            return False, f"{where}: expected {want}, got {kd} {type(r).__name__}: {str(r)[:120]}"
+        if (bool(r) != want) if isinstance(want, bool) else (int(r) != want):
+            return False, f"{where}: expected {want}, got {r!r}"
+    if case.startswith("leak"):
+        for src in ("sub(a, b)", "a.sub(b)", "neg(a)"):
+            try:
+                kd, r = evaluate_outcome(lambda: make_program(src, runner).evaluate(dict(bind)))
+            except Exception as ex:  # noqa: BLE001
+                kd, r = "construction", ex
+            if kd != "error":
+                return False, f"`{src}` in a later program built without functions under {runner}: expected an evaluation error (unbound), got {kd} {r!r:.80}"
+        kd, r = evaluate_outcome(lambda: make_program("size([a, b]) + 0", runner).evaluate(dict(bind)))
+        if kd != "value" or int(r) != 2:
+            return False, f"built-in size() in a later program under {runner}: {kd} {r!r:.80}"
+    return True, "ok"
